@@ -45,7 +45,7 @@ let depth8 = Z.to_nat (z_of_int 8)
 
 let err_name = function
   | EOOBRead -> "oobread" | EOOBWrite -> "oobwrite" | EAlloc -> "alloc" | EThrow -> "throw"
-  | EUnsupported -> "unsupported" | EUB -> "ub" | EFuel -> "fuel" | EType -> "type"
+  | EUnsupported -> "unsupported" | EUB -> "ub" | EFuel -> "fuel" | ESpin -> "spin" | EType -> "type"
 
 (* fields of a class sorted by id *)
 let fields_cache : (int, fdef list) Hashtbl.t = Hashtbl.create 200
@@ -266,6 +266,16 @@ let run_fr (hex : ostring) : ostring =
   List.iter (fun (c, o) -> Buffer.add_string b (" || " ^ string_of_z c ^ " |" ^ dump (int_of_z c) o)) r.r_objs;
   Buffer.contents b
 
+(* FK <k> <hex>: the read session when File::close() closes the compressed file after k more operations of the inflating
+   worker on it — with the signature search as the source has it now, and as it was before repo fix b825602 *)
+let run_fk (k : int) (hex : ostring) : ostring =
+  let bytes = bytes_of_hex hex in
+  let r = f_read_session_closing m_inflate cap bytes (nat_of_int k) in
+  let o = f_read_session_closing_old m_inflate cap bytes (nat_of_int k) in
+  if r.r_open_throws then "FK throws" else
+  "FK cend=" ^ stage_name r.r_cend ^ " oend=" ^ stage_name r.r_oend ^ " n=" ^ string_of_int (List.length r.r_objs) ^
+  " old_cend=" ^ stage_name o.r_cend
+
 let process line =
   match String.split_on_char ' ' (String.trim line) with
   | "F" :: c :: _ ->
@@ -341,6 +351,7 @@ let process line =
   | "BQ" :: ops -> run_bq ops
   | "FW" :: _ -> run_fw line
   | "FR" :: hex :: _ -> run_fr (if hex = "-" then "" else hex)
+  | "FK" :: k :: hex :: _ -> run_fk (int_of_string k) (if hex = "-" then "" else hex)
   | [""] | [] -> ""
   | _ -> "? bad case"
 
